@@ -68,7 +68,9 @@ func (p *Peer) Durable() (*Disk, *Keystore) {
 	durMu.Lock()
 	defer durMu.Unlock()
 	if p.dur == nil {
-		p.dur = &durable{disk: NewDisk(), ks: NewKeystore()}
+		ks := NewKeystore()
+		ks.peer = p
+		p.dur = &durable{disk: NewDisk(), ks: ks}
 	}
 	return p.dur.disk, p.dur.ks
 }
@@ -76,6 +78,7 @@ func (p *Peer) Durable() (*Disk, *Keystore) {
 // SetDurable installs recovered durable state (crash recovery worlds).
 func (p *Peer) SetDurable(d *Disk, ks *Keystore) {
 	durMu.Lock()
+	ks.peer = p
 	p.dur = &durable{disk: d, ks: ks}
 	durMu.Unlock()
 }
